@@ -75,6 +75,8 @@ def gen_minmax(rng):
         if u < 0.25:
             lines.append(f"#{rng.choice(['minimize', 'maximize'])} {{ X{rng.choice(['', '@2'])},{rng.choice(['P', 'P', '|P|', 'p(P)'])} : res(P,X) }}." if grouped
                          else "#minimize { X : res(X) }.")
+            if rng.random() < 0.5:  # a second objective with the same tuple text: equal ground tuples are charged once
+                lines.append(lines[-1].replace("res(", "fee("))
         elif u < 0.4:
             lines.append(f"tot(S) :- S = #sum {{ X,{rng.choice(['P', 'P', 'P+1', 'p(P)', '|P|', 'P*P'])} : res(P,X) }}." if grouped else "tot(S) :- S = #sum { X : res(X) }.")
         elif u < 0.5:
